@@ -1565,6 +1565,8 @@ class Engine(object):
             s.ctl = outer.but(brk=after, cont=body_end)
             s.ghost = dict(s.ghost)
             s.ghost[gname] = SV(INT, i)
+            # ghost snapshot of the state at the start of this iteration: at(_iter_start, e) in ghost checkpoints of the body
+            s.ghost['_iter_start'] = SV(Ty('heap'), None, None, s.fork())
             def bound(s2, v2):
                 self.assign(n.target, v2, s2, lambda s3: self.ex_block(n.body, s3, body_end))
             self.resolve_opt(s, v, bound)
